@@ -424,3 +424,63 @@ Definition umon_bounded (c : ucase) : bool :=
 
 Definition udiffs (l : list ucase) := bad_idx udiff_case l.
 Definition umons (l : list ucase) := mon_idx [umon_bounded] l.
+
+(* -------------------------------------------------------------------------------------
+   The archiver's use of the limiter (real archiver.Start / worker / archive(), real HTTP to a local
+   origin answering a scripted status sequence).  Observation per case (= one host): the requests
+   as they ARRIVE at the origin (ns since the start of the case, item number, status answered), and
+   the host's bucket (failure count, rate) read when item 1 has left the archiver.
+   archive() reports a response to the limiter as failure iff status >= 500 or in {408, 425, 429}
+   (or a discarded challenge page - not produced here), anything else as success; it asks Wait once
+   per item, its retries do not pass through Wait. *)
+Inductive aev := AE (t item : int) (status : zi).
+Record acase := AC0 {
+  a_retry : Z; a_cap : fl; a_rate : fl;
+  a_evs : list (Z * Z * Z);
+  a_state : option (Z * fl)          (* failureCount, refillRate after item 1 *)
+}.
+Inductive astate := ANone | ASt (fails : zi) (rate : fl).
+Definition AC (retry : zi) (c r : fl) (evs : list aev) (st : astate) : acase :=
+  AC0 (zi_Z retry) c r (map (fun '(AE t i s) => (iz t, iz i, zi_Z s)) evs)
+      (match st with ANone => None | ASt f x => Some (zi_Z f, x) end).
+
+Definition arch_bad (s : Z) : bool := (500 <=? s) || (s =? 408) || (s =? 425) || (s =? 429).
+
+Definition item_evs (i : Z) (c : acase) : list (Z * Z) :=
+  flat_map (fun '(t, j, s) => if j =? i then [(t, s)] else []) (a_evs c).
+
+(* the retry loop: attempts until the first response that is not a failure, at most retry+1 *)
+Fixpoint attempts_ok (left : nat) (l : list (Z * Z)) : bool :=
+  match l with
+  | [] => false
+  | (_, s) :: r =>
+      if arch_bad s
+      then match left with O => match r with [] => true | _ => false end | S n => attempts_ok n r end
+      else match r with [] => true | _ => false end
+  end.
+
+(* what the bucket must look like after item 1, by the bucket model *)
+Definition adiff_case (c : acase) : bool :=
+  match a_state c, item_evs 1 c with
+  | Some (f, x), (t0, _) :: _ =>
+      let h := Try t0 :: map (fun '(t, s) => if arch_bad s then Fail t s else Succ t) (item_evs 1 c) in
+      let b := final (new_bucket (q_of (a_cap c)) (q_of (a_rate c)) t0) h in
+      negb (fails b =? f) || negb (close (rate b) (q_of x)) ||
+      negb (attempts_ok (Z.to_nat (a_retry c)) (item_evs 1 c))
+  | _, _ => false
+  end.
+
+(* 0: penalty_honoured as seen at the origin: after an answered 429/408/425 at time t, no request of
+   ANOTHER item (each item passes through Wait once, before its first request) arrives before t + 5 s *)
+Fixpoint amon_from (l : list (Z * Z * Z)) : bool :=
+  match l with
+  | [] => true
+  | (t, i, s) :: r =>
+      (if is_throttle s && arch_bad s
+       then forallb (fun '(t', j, _) => (j =? i) || (t + SEC5 <=? t')) r
+       else true) && amon_from r
+  end.
+Definition amon_penalty (c : acase) : bool := amon_from (a_evs c).
+
+Definition adiffs (l : list acase) := bad_idx adiff_case l.
+Definition amons (l : list acase) := mon_idx [amon_penalty] l.
